@@ -396,6 +396,9 @@ func (ps *prodScen) runAsync(actors []int, byActor map[int][]*cf.Op, closeThink 
 				m, mi := ps.newMessage(op, i)
 				mi.submitUs = k.nowUs()
 				mi.submitE = k.stamp()
+				if ps.cl.retryPending[fmt.Sprintf("%s/%d", op.Topic, op.Partition)] {
+					ps.r.probe("fresh-input-while-partition-retrying")
+				}
 				k.logf("submit m%d a%d %s/%d", mi.id, mi.actor, op.Topic, op.Partition)
 				p.Input() <- m
 				mi.submitted = true
@@ -711,7 +714,10 @@ func (ps *prodScen) onProduce(br *mbroker, c *simConn, ver int16, frameLen int, 
 					mi.wireUs = now
 				}
 				mi.wireCount++
-				ps.checkOversize(mi, key)
+				if mi.wireCount == 2 {
+					r.probe("message-resent")
+				}
+				ps.checkOversize(mi, &rec, key)
 				if b.magic == 2 && b.pid >= 0 && ps.c.Config.Idempotent {
 					mi.seqs = append(mi.seqs, seqStamp{b.pid, b.epoch, b.baseSeq + int32(len(ids)-1)})
 				}
@@ -748,9 +754,25 @@ func trunc(b []byte) string {
 	return string(b)
 }
 
-func (ps *prodScen) checkOversize(mi *msgInfo, where string) {
-	if len(mi.key)+len(mi.val) > ps.cfg.Producer.MaxMessageBytes {
-		ps.r.violate("C16.oversize-sent", "message m%d with %d key+value bytes > MaxMessageBytes=%d was sent (%s)", mi.id, len(mi.key)+len(mi.val), ps.cfg.Producer.MaxMessageBytes, where)
+// checkOversize: the size of a message is its key and value plus the documented per-version overhead estimate
+// (26 bytes for the legacy formats; 36 bytes plus key, value and 10 bytes per header for record batches).
+func (ps *prodScen) checkOversize(mi *msgInfo, rec *wrec, where string) {
+	max := ps.cfg.Producer.MaxMessageBytes
+	if len(mi.key)+len(mi.val) > max {
+		ps.r.violate("C16.oversize-sent", "message m%d with %d key+value bytes > MaxMessageBytes=%d was sent (%s)", mi.id, len(mi.key)+len(mi.val), max, where)
+		return
+	}
+	est := len(rec.key) + len(rec.val)
+	if ps.v2 {
+		est += 36
+		for _, h := range rec.headers {
+			est += len(h.k) + len(h.v) + 10
+		}
+	} else {
+		est += 26
+	}
+	if est > max {
+		ps.r.violate("C16.oversize-sent", "message m%d of size %d (key %d + value %d + %d headers + per-message overhead for this version) > MaxMessageBytes=%d was sent (%s)", mi.id, est, len(rec.key), len(rec.val), len(rec.headers), max, where)
 	}
 }
 
